@@ -8,21 +8,31 @@ Open Scope N_scope.
 Theorem C18_canonical_uid : forall u, canon_uid u = canon_spec u.
 Proof. exact canon_uid_spec. Qed.
 
-(* a listed application with an application id: Bank *)
-Theorem C18_bank_if_listed : forall ixa ixs acc v tlv s0 rest app, ixs <> ixa ->
+(* a payment application listed ANYWHERE in the application list (an entry carrying an application id): Bank *)
+Theorem C18_bank_if_listed : forall ixa ixs acc v tlv subs s app, ixs <> ixa ->
   field_of "zvt::packets::StatusInformation" v 6 = Some (VSome tlv) ->
-  field_of "zvt::packets::tlv::StatusInformation" tlv 96 = Some (VList (s0 :: rest)) ->
-  field_of "zvt::packets::tlv::Subs" s0 67 = Some (VSome app) ->
+  field_of "zvt::packets::tlv::StatusInformation" tlv 96 = Some (VList subs) ->
+  In s subs -> field_of "zvt::packets::tlv::Subs" s 67 = Some (VSome app) ->
   h_read_card ixa ixs acc ixs v = (None, Some CBank).
 Proof. exact bank_if_listed. Qed.
 
-(* with any application listed the answer is Bank or an error — never a membership card *)
+(* with any application list the answer is Bank or an error — never a membership card *)
 Theorem C18_listed_never_membership : forall ixa ixs acc v tlv s0 rest, ixs <> ixa ->
   field_of "zvt::packets::StatusInformation" v 6 = Some (VSome tlv) ->
   field_of "zvt::packets::tlv::StatusInformation" tlv 96 = Some (VList (s0 :: rest)) ->
   h_read_card ixa ixs acc ixs v = (None, Some CBank) \/
   h_read_card ixa ixs acc ixs v = (Some (RErr EUnknownCardType), acc).
 Proof. exact listed_never_membership. Qed.
+
+(* KNOWN FINDING (open, known_findings.json; not repaired — DESIGN 16.2): the full statement "otherwise the UID is reported as
+   membership id" is FALSE of the code for a non-empty application list none of whose entries names an application: the call fails
+   with "unknown card type" whether or not a UID is reported.  The deviation is exactly this class: *)
+Theorem C18_refuted_for_idless_lists : forall ixa ixs acc v tlv s0 rest, ixs <> ixa ->
+  field_of "zvt::packets::StatusInformation" v 6 = Some (VSome tlv) ->
+  field_of "zvt::packets::tlv::StatusInformation" tlv 96 = Some (VList (s0 :: rest)) ->
+  existsb has_application (s0 :: rest) = false ->
+  h_read_card ixa ixs acc ixs v = (Some (RErr EUnknownCardType), acc).
+Proof. exact idless_list_is_unknown_card_type. Qed.
 
 (* no application listed: the UID in canonical form *)
 Theorem C18_membership_canonical : forall ixa ixs acc v tlv u, ixs <> ixa ->
@@ -73,3 +83,4 @@ Theorem C18_read_card_request : forall cfg w id, w_cur w = Some id -> c_read_car
     forall r, dec_cmd FUEL (cmd_of "zvt::packets::ReadCard") (req ++ r) = Ok (read_card_value (c_read_card_timeout cfg), r).
 Proof. exact read_card_sends_the_configured_timeout. Qed.
 Print Assumptions C18_read_card_request.
+Print Assumptions C18_refuted_for_idless_lists.
